@@ -1,38 +1,37 @@
-(* RsPrelude.v — the primitives the source translator (rs2v) targets: Rust's integer arithmetic with
-   overflow as a panic (what a debug build does; a theorem that no [Panic] is reachable makes debug and
-   release builds coincide), checked arithmetic, Result, expect/unwrap, iterator `any`/`all`, indexing,
-   `binary_search_by`, and the early-return `for` loop.  No proofs here. *)
+(* RsPrelude.v — the primitives the source translator (rs2v) targets.  No proofs here.
+
+   Integers: u8 is [nat] with every operation checked against 255 — overflow is a [Panic], which is what a
+   debug build does; a theorem that no Panic is reachable makes debug and release builds coincide.
+   usize / i32 / untyped counters are [nat]: going below zero is a Panic, overflow of the machine word is
+   NOT modelled (it needs more than 2^31 characters of input; trusted base).  char is [N]. *)
 From BidiVerif Require Import Base.
-Local Open Scope N_scope.
 
 (* panic sites of the primitives *)
-Definition site_overflow : nat := 900%nat.
-Definition site_div0 : nat := 902%nat.
-Definition site_expect : nat := 903%nat.
-Definition site_index : nat := 904%nat.
+Definition site_overflow : nat := 900.
+Definition site_div0 : nat := 902.
+Definition site_expect : nat := 903.
+Definition site_index : nat := 904.
+Definition site_assert : nat := 905.
+Definition site_flow : nat := 906.
 
 Inductive rresult (A E : Type) : Type := ROk (a : A) | RErr (e : E).
 Arguments ROk {A E} a.
 Arguments RErr {A E} e.
 
-Definition rs_add (bits : N) (a b : N) : res N :=
-  if a + b <? 2 ^ bits then Ok (a + b) else Panic site_overflow.
-Definition rs_sub (a b : N) : res N :=
-  if b <=? a then Ok (a - b) else Panic site_overflow.
-Definition rs_mul (bits : N) (a b : N) : res N :=
-  if a * b <? 2 ^ bits then Ok (a * b) else Panic site_overflow.
-Definition rs_div (a b : N) : res N := if b =? 0 then Panic site_div0 else Ok (a / b).
-Definition rs_rem (a b : N) : res N := if b =? 0 then Panic site_div0 else Ok (a mod b).
-(* `!x` on an unsigned integer of [bits] bits *)
-Definition rs_not (bits : N) (a : N) : N := 2 ^ bits - 1 - a.
-
-Definition rs_checked_add (bits : N) (a b : N) : option N :=
-  if a + b <? 2 ^ bits then Some (a + b) else None.
-Definition rs_checked_sub (a b : N) : option N :=
-  if b <=? a then Some (a - b) else None.
+(* u8 *)
+Definition rs_add8 (a b : nat) : res nat := if a + b <=? 255 then Ok (a + b) else Panic site_overflow.
+Definition rs_mul8 (a b : nat) : res nat := if a * b <=? 255 then Ok (a * b) else Panic site_overflow.
+Definition rs_not8 (a : nat) : nat := 255 - a.                       (* `!a` *)
+Definition rs_checked_add8 (a b : nat) : option nat := if a + b <=? 255 then Some (a + b) else None.
+(* any unsigned type *)
+Definition rs_subn (a b : nat) : res nat := if b <=? a then Ok (a - b) else Panic site_overflow.
+Definition rs_checked_subn (a b : nat) : option nat := if b <=? a then Some (a - b) else None.
+Definition rs_divn (a b : nat) : res nat := if b =? 0 then Panic site_div0 else Ok (a / b).
+Definition rs_remn (a b : nat) : res nat := if b =? 0 then Panic site_div0 else Ok (a mod b).
 
 Definition rs_expect {A E} (r : rresult A E) : res A :=
   match r with ROk a => Ok a | RErr _ => Panic site_expect end.
+Definition rs_assert (b : bool) : res unit := if b then Ok tt else Panic site_assert.
 
 Definition rs_t0 {A B C} (t : A * B * C) : A := fst (fst t).
 Definition rs_t1 {A B C} (t : A * B * C) : B := snd (fst t).
@@ -50,15 +49,45 @@ Fixpoint rs_all {A} (f : A -> res bool) (l : list A) : res bool :=
   | x :: t => b <- f x ;; if b then rs_all f t else Ok false
   end.
 
-(* `v[i]` with a usize index *)
-Definition rs_index {A} (l : list A) (i : nat) : res A := get site_index l i.
+(* slices *)
+Definition rs_index {A} (l : list A) (i : nat) : res A := get site_index l i.                 (* v[i] *)
+Definition rs_upd {A} (l : list A) (i : nat) (x : A) : res (list A) := upd site_index l i x.    (* v[i] = x *)
+(* for e in &mut v[a..b] { *e = x } *)
+Definition rs_set_range {A} (l : list A) (a b : nat) (x : A) : res (list A) := set_range site_index l a b x.
+(* for e in &mut v[a..] { *e = x } *)
+Definition rs_set_from {A} (l : list A) (a : nat) (x : A) : res (list A) := set_range site_index l a (length l) x.
 
-(* `for x in coll { ...; if c { return r; } }  rest` : the body yields Some r for `return r` *)
+(* `for x in coll { ...; if c { return r; } }  rest` without mutable state: the body yields Some r for `return r` *)
 Fixpoint rs_for_return {A R} (body : A -> res (option R)) (l : list A) (rest : res R) : res R :=
   match l with
   | [] => rest
   | x :: t => o <- body x ;; match o with Some r => Ok r | None => rs_for_return body t rest end
   end.
+
+(* Control flow of statement lists (flow mode): normal completion with the values of the variables that
+   were assigned, `break` / `continue` with the state of the enclosing loop, `return` with the value. *)
+Inductive flow (G B R : Type) : Type := Go (g : G) | Brk (b : B) | Cnt (b : B) | Ret (r : R).
+Arguments Go {G B R} g.
+Arguments Brk {G B R} b.
+Arguments Cnt {G B R} b.
+Arguments Ret {G B R} r.
+
+(* `for x in coll { body }` with loop state S: Go/Cnt continue, Brk leaves, Ret returns from the function *)
+Fixpoint rs_loop {S A R} (body : S -> A -> res (flow S S R)) (s : S) (l : list A) : res (flow S unit R) :=
+  match l with
+  | [] => Ok (Go s)
+  | x :: t =>
+    f <- body s x ;;
+    match f with
+    | Go s' | Cnt s' => rs_loop body s' t
+    | Brk s' => Ok (Go s')
+    | Ret r => Ok (Ret r)
+    end
+  end.
+
+(* a function body ends in a `return` *)
+Definition rs_unflow {R} (f : flow unit unit R) : res R :=
+  match f with Ret r => Ok r | _ => Panic site_flow end.
 
 (* `slice.binary_search_by(f)`: a halving search.  core documents only the contract (on a slice sorted
    with respect to [f]: Ok(index of a matching element) or Err(insertion point)); this is the classical
@@ -80,3 +109,15 @@ Fixpoint rs_bsearch_fuel {A} (fuel : nat) (f : A -> res comparison) (l : list A)
   end.
 Definition rs_binary_search_by {A} (f : A -> res comparison) (l : list A) : res (rresult nat nat) :=
   rs_bsearch_fuel (S (length l)) f l 0%nat (length l).
+
+(* The two traits a generic function is parametrised by.  A text is the list of its code units (u16) or
+   of its scalar values (str), as in ModelText.v; the instances are built from the model's encodings. *)
+Record rs_text_source := {
+  rs_char_len : N -> nat;                          (* T::char_len(c) *)
+  rs_chars : list N -> list N;                     (* text.chars() *)
+  rs_char_indices : list N -> list (nat * N);      (* text.char_indices() *)
+  rs_indices_lengths : list N -> list (nat * nat)  (* text.indices_lengths() *)
+}.
+Record rs_data_source := {
+  rs_bidi_class : N -> bclass                      (* data_source.bidi_class(c) *)
+}.
